@@ -228,7 +228,8 @@ def flow_programs(tier):
 
 def gsig_decls():
     bodies = {'gq_g2': 'a1', 'gq_gs': 'if(true, a1[0], a0)', 'gq_go': '[a1]', 'gq_gp': '(a2, a1)', 'gq_gf': 'a1(a0)', 'gq_gc': 'if(true, a0::a, a1)',
-              'gq_gc2': 'S2(a2, a1)', 'gq_gt': 'mapping<int>().set(1, a0::item1).set(2, a1)', 'gq_gm': 'if(true, a1.value(), a0[0].value())', 'gq_gr': 'if(true, a1(), a0())'}
+              'gq_gc2': 'S2(a2, a1)', 'gq_gt': 'mapping<int>().set(1, a0::item1).set(2, a1)', 'gq_gm': 'if(true, a1.value(), a0[0].value())', 'gq_gr': 'if(true, a1(), a0())',
+              'gq_gk': 'a0', 'gq_gh': '(x: T, y: T)->{ if(true, a0(y), a0(x)) }', 'gq_gz': '()->{ [a0] }'}
     out = ''
     for name, gens, params, ret in c04.GSIGS:
         out += 'fn %s<%s>(%s)->%s{ %s }\n' % (name, ', '.join(gens), ', '.join('a%d: %s' % (i, render(p)) for i, p in enumerate(params)), render(ret), bodies[name])
@@ -446,7 +447,7 @@ def _mutant_chunk(args):
     texts, = args
     out = []
     for t in texts:
-        job = {'id': 0, 'limits': {'depth': 300, 'calls': 200000, 'size': 64 << 20, 'search': 20000, 'time_ms': 3000}, 'perms': {'sleep': False},
+        job = {'id': 0, 'limits': {'depth': 300, 'calls': 200000, 'size': 64 << 20, 'search': 20000, 'time_ms': 3000, 'recursion': 100000}, 'perms': {'sleep': False},
                'dump': {'max_items': 4}, 'steps': [{'feed': t}, {'op': 'inst'}, {'op': 'call', 'name': 'main'}]}
         rep = run_job(job, timeout=30.0)
         if 'fatal' in rep:
@@ -584,7 +585,7 @@ def run(tier):
             rep.nontrivial.add('mutant|' + key)
         if 'panic' in r or r.startswith('fatal'):
             rep.fail(Failure(PROP, 'C01|mutant|%s|%s' % (key, r), {'text': t}, 'rejected, or a value / error / violation', '%s %s' % (r, msg),
-                             {'id': 0, 'limits': {'depth': 300, 'calls': 200000, 'size': 64 << 20, 'search': 20000}, 'steps': [{'feed': t}, {'op': 'inst'}, {'op': 'call', 'name': 'main'}]}))
+                             {'id': 0, 'limits': {'depth': 300, 'calls': 200000, 'size': 64 << 20, 'search': 20000, 'recursion': 100000}, 'steps': [{'feed': t}, {'op': 'inst'}, {'op': 'call', 'name': 'main'}]}))
     rep.sample(flows[len(flows) // 2][1])
     rep.sample({'eliminator': use(nat('Sequence', cmp_('S2', 'int', nat('Optional', 'str'))), 'v')})
     rep.assumptions = ['conformance is judged on the dumped prefix of a value (12 items per container)',
